@@ -40,6 +40,7 @@ def run(ctx):
     consumer(ctx)
     producer_pairing(ctx)
     read_dets(ctx)
+    parity_rule(ctx)
     s = Sib(ctx)
     s.multislater_restricted_vs_unrestricted()
 
@@ -168,6 +169,49 @@ def kind3(ctx):
     ctx.ob("PAIR-1", "get_excitations: parity(d0a, Acre, Ades) / parity(d0b, Bcre, Bdes) on the label lists",
            ok and good and before, f"{len(par_calls)} parity calls, spin-matched {good}, before conversion {before}",
            fi)
+
+
+def parity_rule(ctx):
+    """PAIR-1 on pyscf_interface.parity: the sign of a multiple excitation is accumulated move by move, so the
+    occupation whose segment is counted must be the running one that the loop updates, and that running
+    occupation must be a private copy of the reference (the reference is reused by the caller)."""
+    fi = ctx.p.func("pyscf_interface.parity")
+    node = fi.node
+    loops = [st for st in node.body if isinstance(st, (ast.For, ast.While))]
+    if not loops:
+        raise AnalysisError("pyscf_interface.parity: excitation loop not found")
+    loop = loops[-1]
+    updated, counted = set(), set()
+    for nd in ast.walk(loop):
+        if isinstance(nd, (ast.Assign, ast.AugAssign)):
+            tgs = nd.targets if isinstance(nd, ast.Assign) else [nd.target]
+            for tg in tgs:
+                if isinstance(tg, ast.Subscript) and isinstance(tg.value, ast.Name):
+                    updated.add(tg.value.id)
+        if isinstance(nd, ast.Subscript) and isinstance(nd.ctx, ast.Load) and isinstance(nd.slice, ast.Slice) and \
+                isinstance(nd.value, ast.Name):
+            counted.add(nd.value.id)
+    params = {a.arg for a in node.args.args}
+    ctx.ob("PAIR-1", "parity: the occupation segment counted for each move is the running occupation the loop updates",
+           bool(updated) and counted == updated and len(updated) == 1,
+           f"counted {sorted(counted)}, updated {sorted(updated)}", fi)
+    # the running occupation is a fresh array, not the caller's reference
+    fresh = True
+    why = []
+    for u in updated:
+        if u in params:
+            fresh = False
+            why.append(f"{u} is a parameter")
+        for st in node.body:
+            if isinstance(st, ast.Assign) and any(isinstance(t, ast.Name) and t.id == u for t in st.targets):
+                v = st.value
+                alias = isinstance(v, ast.Name) or (isinstance(v, ast.Call) and (dotted(v.func) or "").endswith(
+                    ("asarray", "reshape", "ravel", "view")))
+                if alias:
+                    fresh = False
+                    why.append(f"{u} = {ast.unparse(v)} may alias the reference")
+    ctx.ob("PAIR-1", "parity: the running occupation is a private copy (the caller's reference is not modified)",
+           fresh and bool(updated), "; ".join(why) or f"{sorted(updated)} built by arithmetic / copy", fi)
 
 
 _cc_cache = {}
